@@ -54,6 +54,8 @@ REG = {
                 text="Generated (P, neutral N(P)) pairs must compare clean in both orders; exploration only.", note=_T1),
     "C14": dict(engine="progfuzz", technique="property-based testing (metamorphic: same command under 4 environments - ASLR on/off, MALLOC_PERTURB_, arena count, cwd - must give byte-identical output)",
                 text="Six abidw/abidiff/abipkgdiff commands per generated pair, each run under four environment perturbations; byte equality of stdout and equal status; exploration only (only the perturbations listed are provoked).", note=_T1),
+    "C16": dict(engine="progfuzz", technique="property-based testing (structural walk of the generator's type model against the ABIXML type graph read with expat, guarded by the compiler's own DWARF parameter counts)",
+                text="Generated C/C++ libraries; every exported function's return type, parameter count, parameter types and variadic marker and every exported variable's type are matched against abidw's output (typedefs, qualifiers, pointers, references, arrays, function types, builtin spellings); only the two documented normalisations and compiler-level spelling freedoms are accepted; exploration only.", note=_T1),
     "C17": dict(engine="progfuzz", technique="property-based testing (Hypothesis libraries mixing -g and non -g translation units; oracle A: expat+readelf accounting of declarations vs symbols; oracle B: exactly-once placement of removed interfaces in abidiff's sections)",
                 text="Generated C libraries with aliases, weak, hidden, static definitions and translation units without debug info; every exported interface must be attached to exactly one declaration or be a bare symbol, and each removed interface must show up exactly once in the right section; exploration only.", note=_T1),
     "C22": dict(engine="progfuzz", technique="property-based testing (differential: report with an unsatisfiable generated suppression file vs report without)",
